@@ -462,6 +462,11 @@ def run_case(case: T.Dict[str, T.Any], keep: T.Optional[Path] = None) -> T.Dict[
         if pre != 'absent':
             ctx.dest.mkdir(parents=True)
             os.chmod(ctx.dest, 0o700 if pre == 'dir700' else 0o755)
+            for iid in case['env'].get('premk', []):
+                it = ctx.by_id[iid]
+                q = ctx.dest.joinpath(*(it['dir']['p'] if it['dir']['k'] == 'abs' else ctx.o['prefix'] + it['dir']['p']))
+                q.mkdir(parents=True, exist_ok=True)
+                os.chmod(q, 0o777)
         trace: T.Dict[str, T.Any] = {'id': case['id'], 'o': ctx.o, 'plan': ctx.plan, 't0': list_tree(ctx.dest),
                                      'out0': list_outside(ctx), 'ev': [], 'intro': read_intro(ctx),
                                      'checkintro': True}
@@ -593,7 +598,12 @@ def model_cases(model: T.Dict[str, T.Any], n: int, hist_len: int, seed: int) -> 
         plan = [catalog[i] for i in ids]
         o = opts[(k // len(order) + k) % len(opts)]
         hist = gen_history(r, hist_len, installs, [i for i in ids if catalog[i]['st']], False)
-        cases.append({'id': f'A{k}', 'o': o, 'plan': plan, 'env': gen_env(r, plan, False), 'hist': hist})
+        env = gen_env(r, plan, False)
+        premk = [it['id'] for it in plan if it['kind'] == 'emptydir' and it['mode'] >= 0 and r.random() < 0.35]
+        if premk:
+            env['premk'] = premk
+            env['pre'] = 'dir' if env['pre'] == 'absent' else env['pre']
+        cases.append({'id': f'A{k}', 'o': o, 'plan': plan, 'env': env, 'hist': hist})
     return cases
 
 
@@ -670,11 +680,52 @@ def gen_opts(rnd: random.Random) -> T.Dict[str, T.Any]:
     return o
 
 
+def add_overlapping_emptydirs(rnd: random.Random, plan: T.List[T.Dict[str, T.Any]], subs: T.List[str]) -> T.List[str]:
+    """install_emptydir rules with a declared mode on directories other rules install into, below or above
+    (same directory as a file rule, top of a copied tree, parent of another emptydir declared earlier or later);
+    returns the ids of those whose directory the harness creates below DESTDIR beforehand."""
+    if rnd.random() < 0.4:
+        return []
+    cands: T.List[T.Dict[str, T.Any]] = []
+    for it in plan:
+        d = it['dir']
+        if d['k'] == 'none' or not d['p']:
+            continue
+        if it['kind'] in ('data', 'header', 'man', 'target', 'symlink'):
+            cands.append(d)
+        elif it['kind'] == 'subdir':
+            cands.append(d)
+            if not it['strip']:
+                cands.append({'k': d['k'], 'p': d['p'] + [it['src'][-1]]})
+        elif it['kind'] == 'emptydir' and len(d['p']) > 1:
+            cands.append({'k': d['k'], 'p': d['p'][:-1]})
+    cands += [{'k': c['k'], 'p': c['p'][:-1]} for c in cands if len(c['p']) > 1 and rnd.random() < 0.3]
+    taken = {(it['dir']['k'], tuple(it['dir']['p'])) for it in plan if it['kind'] == 'emptydir'}
+    premk: T.List[str] = []
+    rnd.shuffle(cands)
+    for n, c in enumerate(cands[:rnd.randint(1, 3)]):
+        key = (c['k'], tuple(c['p']))
+        if key in taken:
+            continue
+        taken.add(key)
+        kw: T.Dict[str, T.Any] = {'mode': rnd.choice(DIR_MODES)}
+        if rnd.random() < 0.4:
+            kw['tag'] = rnd.choice(TAGS)
+        it = item(f'e{n}', 'emptydir', rnd.choice(subs) if subs and rnd.random() < 0.25 else '', {'k': c['k'], 'p': list(c['p'])}, [], **kw)
+        plan.insert(rnd.randint(0, len(plan)), it)
+        if rnd.random() < 0.3:
+            premk.append(it['id'])
+    for it in plan:
+        if it['kind'] == 'emptydir' and it['mode'] >= 0 and it['id'] not in premk and rnd.random() < 0.1:
+            premk.append(it['id'])
+    return premk
+
+
 def gen_project(seed: int, k: int, hist_len: int) -> T.Dict[str, T.Any]:
     rnd = random.Random(seed * 1000003 + k * 104729 + 2)
-    # names that end in a blank or contain a newline, and install_headers(install_dir + preserve_path), are known not
-    # to work (see probe_cases): they are exercised by fixed probes so that every other history stays clean
-    defect = ''
+    # names containing a newline are known not to work (see probe_cases): they are exercised by a fixed probe so that every
+    # other history stays clean; names ending in a blank are part of the random space
+    defect = 'trailing-blank' if rnd.random() < 0.08 else ''
     g = Gen(rnd, defect)
     o = gen_opts(rnd)
     subs = rnd.choice([[], ['sp1'], ['sp1'], ['sp1', 'sp-2']])
@@ -716,7 +767,7 @@ def gen_project(seed: int, k: int, hist_len: int) -> T.Dict[str, T.Any]:
                 kw['hsub'] = [rnd.choice(DIRNAMES)]
             elif r2 < 0.55:
                 d = g.dirpath(o)
-            if srcdirs and rnd.random() < 0.5 and d['k'] == 'none':
+            if srcdirs and rnd.random() < 0.5:
                 kw['pp'] = True
             plan.append(item(iid, 'header', sub, d, srcdirs + [name], ext=ext, st=[ent([], 'file', rnd.choice(SRC_MODES), cid + 'f')], **kw))
         elif kind == 'man':
@@ -777,6 +828,7 @@ def gen_project(seed: int, k: int, hist_len: int) -> T.Dict[str, T.Any]:
             if not d['p']:
                 d = rel(*o['libdir'])
             plan.append(item(iid, 'target', sub, d, [name], ext=ext, st=[ent([], 'file', rnd.choice(SRC_MODES), cid + 'f')], **common_kw(True)))
+    premk = add_overlapping_emptydirs(rnd, plan, subs)
     tags = sorted({it['tag'] for it in plan if it['tag']} | {'devel', 'man', 'runtime'})
     installs = [full_install(), full_install(),
                 dict(full_install(), dry=True), dict(full_install(), oc=True),
@@ -789,6 +841,10 @@ def gen_project(seed: int, k: int, hist_len: int) -> T.Dict[str, T.Any]:
     ids = [it['id'] for it in plan if it['st']]
     env = gen_env(rnd, plan, True)
     env['subprojects'] = subs
+    if premk:
+        env['premk'] = premk
+        if env['pre'] == 'absent':
+            env['pre'] = 'dir'
     hist = gen_history(rnd, hist_len, installs, ids, defect == 'trailing-blank')
     return {'id': f'B{k}', 'o': o, 'plan': plan, 'env': env, 'hist': hist}
 
@@ -820,7 +876,17 @@ def probe_cases() -> T.List[T.Dict[str, T.Any]]:
     o27 = dict(o, umask=0o027, eumask=0o077)
     envn = dict(env, backend='ninja', subprojects=['sp1'], destmode='both', dname='stage dir')
     oc = dict(inst, oc=True)
+    edirs = [item('d1', 'header', '', rel('include', 'foo'), ['foo.h'], ext='.h', st=[ent([], 'file', 0o644, 'd1:f')]),
+             item('d2', 'emptydir', '', rel('include', 'foo'), [], mode=0o750),               # a directory an earlier rule installs into
+             item('d3', 'emptydir', '', rel('var', 'spool', 'in'), [], mode=0o770),           # child declared before its parent
+             item('d4', 'emptydir', '', rel('var', 'spool'), [], mode=0o700),
+             item('d5', 'emptydir', '', absd('srv', 'pre'), [], mode=0o751),                  # exists below DESTDIR beforehand
+             item('d6', 'subdir', '', rel('share'), ['tree'], st=[ent(['f'], 'file', 0o644, 'd6:0'), ent(['in'], 'dir', 0o755, ''), ent(['in', 'g'], 'file', 0o644, 'd6:1')]),
+             item('d7', 'emptydir', '', rel('share', 'tree'), [], mode=0o1775),               # top of a copied tree
+             item('d8', 'data', 'sp1', rel('share', 'tree'), ['extra.dat'], ext='.dat', st=[ent([], 'file', 0o644, 'd8:f')])]
     return [
+        {'id': 'P-emptydir-overlap', 'o': o27, 'plan': edirs, 'env': dict(env, subprojects=['sp1'], pre='dir', premk=['d5']),
+         'hist': [dict(inst, tags=['devel']), inst, inst, {'op': 'uninstall'}, inst, {'op': 'uninstall'}]},
         {'id': 'P-foreign', 'o': o27, 'plan': allk, 'env': envn,
          'hist': [inst, {'op': 'plant', 'k': 7, 'name': 'zz foreign', 'shadow': False}, {'op': 'uninstall'}]},
         {'id': 'P-cycle', 'o': o27, 'plan': allk, 'env': dict(envn, destmode='rel', pre='dir700'),
@@ -1056,8 +1122,8 @@ def main(chk: Check) -> None:
         'path components (the documented tag guesses would overlap)',
         'install_headers is not given both install_dir and subdir; install_data not both rename and preserve_path',
         '--only-changed: the harness gives an edited source new content and a newer mtime, so "not older" coincides with "same content"',
-        'names ending in a blank or containing a newline are only generated as final components of renamed data files and of files '
-        'inside install_subdir trees (meson itself rejects source names ending in a space)',
+        'names ending in a blank are only generated as final components of renamed data files and of files inside '
+        'install_subdir trees (meson itself rejects source names ending in a space); names containing a newline only in a fixed probe',
     ]
 
 
